@@ -85,6 +85,10 @@ SpecT(sw, x) ==
     \* text and its last characters (the position of an escape inside a long string must not matter)
     [] sw[1] = "print_pad" -> LET t == Render(VStr(Rep(97, x) \o <<sw[2]>>), Compact) IN
                               <<"tail", Len(t)>> \o DropPad(t, x + 1, 8)
+    \* the public follow-set predicate of the four parsing contexts (what may come right after a value) and the whitespace set:
+    \* <<none, array, object key, object value, is_whitespace>> as 0 / 1
+    [] sw[1] = "follows" -> LET B(b) == IF b THEN 1 ELSE 0 IN
+                            <<"follows", B(IsWs(x)), B(IsWs(x) \/ x \in {44, 93}), B(IsWs(x) \/ x = 58), B(IsWs(x) \/ x \in {44, 125}), B(IsWs(x))>>
     \* the width the layout decision must attribute to a one-character string / key: the smallest Width limit under which
     \* ["x"] / {"x":null} still stays on one line is the number of characters of its one-line form (C13)
     [] sw[1] = "width_str" -> <<"width", Len(OneLine(VArr(<<VStr(<<x>>)>>), Compact))>>
